@@ -32,6 +32,20 @@ static void mk(U256 *a, U256 *b, int k) {
     T256(and_si256, _mm256_and_si256(a, b)) \
     T256(setzero, _mm256_setzero_si256()) \
     T256(setr_epi32, _mm256_and_si256(a, _mm256_setr_epi32(-1, -1, -1, -1, -1, -1, 0, 0))) \
+    T256(slli_epi16_6_256, _mm256_slli_epi16(a, 6)) \
+    T256(srli_epi16_2_256, _mm256_srli_epi16(a, 2)) \
+    T256(srai_epi16_3_256, _mm256_srai_epi16(a, 3)) \
+    T256(slli_epi32_5_256, _mm256_slli_epi32(a, 5)) \
+    T256(srli_epi32_7_256, _mm256_srli_epi32(a, 7)) \
+    T256(srai_epi32_9_256, _mm256_srai_epi32(a, 9)) \
+    T256(unpacklo_epi16_256, _mm256_unpacklo_epi16(a, b)) \
+    T256(unpackhi_epi16_256, _mm256_unpackhi_epi16(a, b)) \
+    T256(packs_epi32_256, _mm256_packs_epi32(a, b)) \
+    T256(packus_epi32_256, _mm256_packus_epi32(a, b)) \
+    T256(adds_epi16_256, _mm256_adds_epi16(a, b)) \
+    T256(subs_epi16_256, _mm256_subs_epi16(a, b)) \
+    T256(or_si256, _mm256_or_si256(a, b)) \
+    T256(set1_epi16_256, _mm256_and_si256(a, _mm256_set1_epi16(0x00FF))) \
     T256(cvtepu8_epi16, _mm256_cvtepu8_epi16(a128)) \
     T256(setr_m128i, _mm256_setr_m128i(a128, b128)) \
     T256(loadu_storeu, ld_st_256(a)) \
@@ -41,6 +55,32 @@ static void mk(U256 *a, U256 *b, int k) {
     T128(storeh_pd, st_h(a128)) \
     T128(insert_epi32_1, _mm_insert_epi32(a128, 0x12345678, 1)) \
     T128(insert_epi32_3, _mm_insert_epi32(a128, -7, 3)) \
+    T128(slli_epi16_6, _mm_slli_epi16(a128, 6)) \
+    T128(srli_epi16_2, _mm_srli_epi16(a128, 2)) \
+    T128(srai_epi16_3, _mm_srai_epi16(a128, 3)) \
+    T128(slli_epi32_5, _mm_slli_epi32(a128, 5)) \
+    T128(srli_epi32_7, _mm_srli_epi32(a128, 7)) \
+    T128(srai_epi32_9, _mm_srai_epi32(a128, 9)) \
+    T128(unpacklo_epi8_128, _mm_unpacklo_epi8(a128, b128)) \
+    T128(unpackhi_epi8_128, _mm_unpackhi_epi8(a128, b128)) \
+    T128(unpacklo_epi16_128, _mm_unpacklo_epi16(a128, b128)) \
+    T128(unpackhi_epi16_128, _mm_unpackhi_epi16(a128, b128)) \
+    T128(unpacklo_epi32_128, _mm_unpacklo_epi32(a128, b128)) \
+    T128(unpackhi_epi32_128, _mm_unpackhi_epi32(a128, b128)) \
+    T128(unpacklo_epi64_128, _mm_unpacklo_epi64(a128, b128)) \
+    T128(unpackhi_epi64_128, _mm_unpackhi_epi64(a128, b128)) \
+    T128(packus_epi16_128, _mm_packus_epi16(a128, b128)) \
+    T128(packs_epi16_128, _mm_packs_epi16(a128, b128)) \
+    T128(packs_epi32_128, _mm_packs_epi32(a128, b128)) \
+    T128(packus_epi32_128, _mm_packus_epi32(a128, b128)) \
+    T128(adds_epi16_128, _mm_adds_epi16(a128, b128)) \
+    T128(subs_epi16_128, _mm_subs_epi16(a128, b128)) \
+    T128(subs_epu8_128, _mm_subs_epu8(a128, b128)) \
+    T128(adds_epu8_128, _mm_adds_epu8(a128, b128)) \
+    T128(and_si128, _mm_and_si128(a128, b128)) \
+    T128(or_si128, _mm_or_si128(a128, b128)) \
+    T128(set1_epi16, _mm_and_si128(a128, _mm_set1_epi16(0x00FF))) \
+    T128(storeu_si128, ld_st_128(a128)) \
     T128(extracti128_0, _mm256_extracti128_si256(a, 0)) \
     T128(extracti128_1, _mm256_extracti128_si256(a, 1)) \
     T128(castsi256_si128, _mm256_castsi256_si128(a)) \
@@ -55,6 +95,7 @@ static void mk(U256 *a, U256 *b, int k) {
     T128(cvtsi128_si32, _mm_cvtsi32_si128(_mm_cvtsi128_si32(a128)))
 static __m128i ld_stl_128(__m128i a) { uint8_t buf[24] = {0}; _mm_storel_epi64((__m128i *)(buf + 3), a); return _mm_loadu_si128((const __m128i *)(buf + 3)); }
 static __m128i st_h(__m128i a) { uint8_t buf[24] = {0}; _mm_storeh_pd((double *)(buf + 1), _mm_castsi128_pd(a)); _mm_storel_pd((double *)(buf + 9), _mm_castsi128_pd(a)); return _mm_loadu_si128((const __m128i *)(buf + 1)); }
+static __m128i ld_st_128(__m128i a) { uint8_t buf[24]; _mm_storeu_si128((__m128i *)(buf + 3), a); return _mm_loadu_si128((const __m128i *)(buf + 3)); }
 static __m256i ld_st_256(__m256i a) { uint8_t buf[40]; _mm256_storeu_si256((__m256i *)(buf + 5), a); return _mm256_loadu_si256((const __m256i *)(buf + 5)); }
 #ifdef GEN
 int main(void) {
